@@ -139,6 +139,52 @@ theorem runR_eq_run_accepted (s : State) (rs : List RawOp) : runR s rs = run s (
 theorem step_k_le (s : State) (op : Op) : s.k ≤ (step s op).k := by
   rw [step_k]; exact Nat.le_add_right _ _
 
+/-! ### non-mutating calls, derived copies, constructor vs setter (R8, R11, R13) -/
+
+theorem run_dropQueries (s : State) (ops : List Op) : run s (dropQueries ops) = run s ops := by
+  induction ops generalizing s with
+  | nil => rfl
+  | cons op ops ih =>
+    cases op <;> simp only [dropQueries, run, step, ih]
+
+theorem blocks_cons (s : State) (op : Op) (ops : List Op) :
+    blocks s (op :: ops) = (produced s op).toList ++ blocks (step s op) ops := by
+  cases h : produced s op <;> simp [blocks, trace, h]
+
+theorem blocks_dropQueries (s : State) (ops : List Op) :
+    blocks s (dropQueries ops) = blocks s ops := by
+  induction ops generalizing s with
+  | nil => rfl
+  | cons op ops ih =>
+    cases op with
+    | query =>
+      rw [blocks_cons]
+      simp only [dropQueries, produced, step, Option.toList, List.nil_append, ih]
+    | gen n => simp only [dropQueries, blocks_cons, ih]
+    | skip n => simp only [dropQueries, blocks_cons, ih]
+    | setShape a => simp only [dropQueries, blocks_cons, ih]
+
+/-- shape, first sample and count of every later block depend on the counter
+    and the configured shape only (not on the phase epoch, not on `get_samples()`) -/
+theorem trace_geometry_congr (s s' : State) (hk : s.k = s'.k) (hs : s.shape = s'.shape)
+    (ops : List Op) :
+    (trace s ops).map (Option.map Block.geometry) = (trace s' ops).map (Option.map Block.geometry) := by
+  induction ops generalizing s s' with
+  | nil => rfl
+  | cons op ops ih =>
+    have hp : (produced s op).map Block.geometry = (produced s' op).map Block.geometry := by
+      cases op <;> simp only [produced, genBlock, Block.geometry, Option.map, hk, hs]
+    have hstep := ih (step s op) (step s' op)
+      (by cases op <;> simp only [step, hk])
+      (by cases op <;> simp only [step, hs])
+    simp only [trace, List.map_cons, hp, hstep]
+
+theorem trace_drop (s : State) (pre child : List Op) :
+    (trace s (pre ++ child)).drop pre.length = trace (run s pre) child := by
+  rw [trace_append]
+  have := trace_length s pre
+  rw [← this, List.drop_left]
+
 /-! ### the Jakes sum over ℝ -/
 
 @[simp] theorem sumList_nil : sumList ([] : List ℝ) = 0 := by simp [sumList]
